@@ -432,7 +432,7 @@ pub fn scenarios_c15(thorough: bool) -> Vec<PScenario> {
     // all multisets of up to `max` parts (order matters little; enumerate sequences up to 3)
     v.push(PScenario { pay: false, initial: vec![], codes: vec![203], max_parts: 0, faults: 0, groups: vec![] });
     for a in sts {
-        v.push(PScenario { pay: false, initial: vec![a], codes: vec![202, 203, 204, 209], max_parts: 0, faults: 0, groups: vec![] });
+        v.push(PScenario { pay: false, initial: vec![a], codes: vec![202, 203, 204, 208, 209], max_parts: 0, faults: 0, groups: vec![] });
         for b in sts {
             v.push(PScenario { pay: false, initial: vec![a, b], codes: vec![203, 204], max_parts: 0, faults: 0, groups: vec![] });
             if max >= 3 {
